@@ -683,6 +683,23 @@ theorem live_const {u : MapObj} {ord q : Nat} {x : Val}
     rw [habs c hc, hv] at hval
     cases hval
 
+theorem four_pow (j : Nat) : 4 ^ j = 2 ^ (2 * j) := by
+  rw [Nat.pow_mul]
+
+theorem childPix_four (F : MapObj) (o q : Nat) (hs : F.spord = o + 1) :
+    childPix F o q = (List.range 4).map fun i => 4 * q + i := by
+  unfold childPix
+  rw [hs, show 2 * (o + 1 - o) = 2 by omega]
+  apply List.map_congr_left
+  intro j _
+  show q * 4 + j = 4 * q + j
+  omega
+
+theorem get?_bind_self (w : World) (r : String) (m : MapObj) :
+    (w.bind r m).get? r = some { m with view := none } := by
+  unfold World.get? World.raw? World.bind
+  simp
+
 /-! ### the protocol driver -/
 
 /-- **what the protocol line `fracdet m r=… ord=…` does**: `ValueError` outside
